@@ -4,7 +4,7 @@
 From Coq Require Import ZArith QArith List String Bool Arith Lia.
 From PV Require Import C11.Model C17.Model C17.Spec C17.ProofsRle C17.ProofsDir.
 From PV Require Import MiniPy.Syntax MiniPy.Interp MiniTorch.OpsC17 MiniTorch.ValueC17 Gen.C17Src
-  C17.SrcRun C17.TieLib C17.TieAliSpec C17.TieAli.
+  C17.SrcRun C17.TieLib C17.TieAliSpec C17.TieAli C17.TieMom.
 Import ListNotations.
 Local Open Scope string_scope.
 
@@ -89,4 +89,32 @@ Proof.
       { revert E. unfold ali_of_ref.
         repeat match goal with |- (if ?c then _ else _) = _ -> _ => destruct c end; intros E; inversion E; auto. }
       destruct He as [-> | ->]; [left|right]; exact R.
+Qed.
+
+Lemma filter_true_all' : forall A (l : list A), filter (fun _ => true) l = l /\ True.
+Proof. intros. split; [|exact I]. induction l as [|x l IH]; cbn; [reflexivity|now rewrite IH]. Qed.
+
+(* ---- length moments ------------------------------------------------------------------------------------------ *)
+(* the interpreted ali worker returns the moments of exactly the list of lengths that Model.ali_dir_moments pools
+   (ProofsDir.ali_dir_moments_pooled): the lengths of the maximal runs whose label is not excluded *)
+Theorem source_ali_moments_lens : forall fs fn excl v,
+  dict_get fs fn = Some (enc_tensor (Vec v)) ->
+  exists st, run_ali_moments fs fn excl = Interp.Ok (mom_value (mom_of (ali_lens excl (Vec v)))) st /\ events st = [].
+Proof. intros. rewrite <- ali_moments_lens. now apply ali_moments_tie. Qed.
+
+Lemma sum_runs : forall rs, sumZ (map snd rs) = runs_total rs.
+Proof. induction rs as [|[v c] t IH]; [reflexivity|]. unfold sumZ, runs_total in *. cbn [map snd fold_right]. now rewrite IH. Qed.
+
+(* composed with the run-length lemmas, purely about the interpreted source: without exclusions the first figure is
+   the number of frames of the alignment *)
+Theorem source_ali_moments_frames : forall fs fn v,
+  dict_get fs fn = Some (enc_tensor (Vec v)) ->
+  exists ss c st, run_ali_moments fs fn None
+                  = Interp.Ok (VTuple [VInt (Z.of_nat (List.length v)); VInt ss; VInt c]) st /\ events st = [].
+Proof.
+  intros fs fn v H. destruct (ali_moments_tie fs fn None v H) as [st [E1 E2]].
+  unfold ali_moments, excluded, mom_of, mom_value in E1. cbn [negb] in E1.
+  rewrite (proj1 (filter_true_all' _ (rle v))) in E1.
+  rewrite sum_runs, <- (runs_total_len (rle v)) in E1 by (apply pos_nonneg, rle_pos). rewrite rle_expand in E1.
+  eexists. eexists. exists st. split; [exact E1|exact E2].
 Qed.
